@@ -608,11 +608,16 @@ func c03Plumbing(c *Ctx) {
 				n++
 				bad := false
 				var bp []*ssa.BasicBlock
+				// another trip round the statement loop is another statement: cut the back edges of the outermost loop
+				var outer *loop
+				for _, lp := range naturalLoops(os) {
+					if lp.body[cd.Block()] && (outer == nil || len(lp.body) > len(outer.body)) {
+						outer = lp
+					}
+				}
 				for _, bd := range bodies {
-					q := &pathQuery{fn: os, target: func(x ssa.Instruction) bool { return x == cd }, stop: func(x ssa.Instruction) bool {
-						// the next statement of the list (another trip round the statement loop) is another loop
-						_, isNext := x.(*ssa.Next)
-						return isNext
+					q := &pathQuery{fn: os, target: func(x ssa.Instruction) bool { return x == cd }, cutEdge: func(bb *ssa.BasicBlock, si int) bool {
+						return outer != nil && bb.Succs[si] == outer.head && outer.body[bb]
 					}}
 					if h, p := q.after(bd); h != nil {
 						bad, bp = true, p
